@@ -425,23 +425,29 @@ func checkC17(e *Engine, r *Report) {
 		if n == 0 {
 			r.Bad("who builds EVMs", e.Pos(ne.Pos()), "no corevm.NewEVM call found")
 		}
-		with := callsIn(ne, false, func(c ssa.CallInstruction) bool { return isMethodNamed(c, "WithCustomPrecompiledContracts") })
-		all := callsIn(ne, false, func(c ssa.CallInstruction) bool { return isMethodNamed(c, "GetAllCustomPrecompiledContracts") })
+		neReg := e.privateRegion(ne)
+		inReg := func(f *ssa.Function) bool { return neReg.in[f] }
+		with := neReg.Calls(func(c ssa.CallInstruction) bool { return isMethodNamed(c, "WithCustomPrecompiledContracts") })
+		all := neReg.Calls(func(c ssa.CallInstruction) bool { return isMethodNamed(c, "GetAllCustomPrecompiledContracts") })
 		if len(with) != 1 || len(all) != 1 {
 			r.Bad("NewEVM › wiring", e.Pos(ne.Pos()), "NewEVM does not call GetAllCustomPrecompiledContracts and WithCustomPrecompiledContracts exactly once")
 			return
 		}
 		okRet := true
 		for _, ret := range returnsOf(ne) {
-			if !sliceFrom(ret.Results[0]).HasValue(with[0].(ssa.Value)) {
+			if !backSlice(ret.Results[0], SliceOpts{ThroughCallArgs: alwaysThrough, IntoCallees: inReg, Depth: 3}).HasValue(with[0].(ssa.Value)) {
 				okRet = false
 			}
 		}
 		r.Check(okRet, "NewEVM › returns the EVM with the contracts", e.Pos(with[0].Pos()), "return evm.WithCustomPrecompiledContracts(contracts...)", "the EVM returned is not the one the custom precompiles were attached to")
 		// no filtering in the range loop over the contracts
-		okLoop := noFilterLoop(ne, all[0].(ssa.Value), func(c ssa.CallInstruction) bool {
+		okLoop := noFilterLoop(all[0].Parent(), all[0].(ssa.Value), func(c ssa.CallInstruction) bool {
 			return isCallTo(c, CallSpec{pkgGethVM, "", "NewCustomPrecompiledContract"})
-		}) && sliceFrom(with[0].Common().Args[len(with[0].Common().Args)-1]).HasCall(CallSpec{pkgGethVM, "", "NewCustomPrecompiledContract"})
+		}) && backSlice(with[0].Common().Args[len(with[0].Common().Args)-1], SliceOpts{ThroughCallArgs: alwaysThrough, IntoCallees: inReg, Depth: 3}).HasCall(CallSpec{pkgGethVM, "", "NewCustomPrecompiledContract"})
+		// the helper that builds the list (if any) runs on every path to the wiring call
+		if okLoop && all[0].Parent() != with[0].Parent() {
+			okLoop = neReg.Supergraph().PassesOr(with[0], all[0], nil)
+		}
 		r.Check(okLoop, "x/evm/keeper.Keeper.NewEVM › every registered contract is wired", e.Pos(ne.Pos()), "each element of GetAllCustomPrecompiledContracts → NewCustomPrecompiledContract → appended", "the wiring loop can skip a registered contract (filter/continue/break): it stays registered but is not callable")
 		ga := e.Fn(pkgCpcKeeper, "Keeper.GetAllCustomPrecompiledContracts")
 		gm := callsTo(ga, false, CallSpec{pkgCpcKeeper, "Keeper", "GetAllCustomPrecompiledContractsMeta"})
@@ -690,6 +696,10 @@ func checkC17(e *Engine, r *Report) {
 				r.Check(max > 0 && m[v] == max, "type arm › "+spec.fn+" › "+c.Name(), e.Pos(fn.Pos()), itoa(m[v])+" arm(s)", "contract type "+c.Name()+" has fewer arms ("+itoa(m[v])+") than its siblings ("+itoa(max)+") in "+spec.fn+": a registered contract of that type fails validation or panics at EVM construction")
 			}
 		}
+	})
+
+	r.Rule("R7", "KEY-INJECTIVE", "registry records are keyed injectively: metadata by the contract address, the ERC-20 index by the denomination (unique address per contract, one precompile per denomination)", 2, func() {
+		e.checkKeyBuilders(r, pkgCpcTypes, []string{"CustomPrecompiledContractMetaKey", "Erc20CustomPrecompiledContractMinDenomToAddressKey"}, "two contracts (or two denominations) share one registry record: the address is no longer unique / the denomination index no longer matches the metadata")
 	})
 }
 
